@@ -2747,6 +2747,12 @@ def _transition_to_absent(
 ) -> None:
     """Remove any type of entry."""
     if current_stat is None:
+        # nothing to remove from the work tree, but the entry still has to
+        # leave the index (e.g. a staged addition whose file is already gone)
+        try:
+            del index[path]
+        except KeyError:
+            pass
         return
 
     if stat.S_ISDIR(current_stat.st_mode):
